@@ -21,6 +21,7 @@ type ObResult struct {
 	Status   string   `json:"status"` // discharged | failed | undecided
 	Solver   string   `json:"solver"`
 	TimeS    float64  `json:"time_s"`
+	MaxS     float64  `json:"max_query_s"`
 	Src      string   `json:"clause,omitempty"`
 	Model    string   `json:"-"`
 	FailPath string   `json:"fail_path,omitempty"`
@@ -69,10 +70,23 @@ func (c *FnCtx) globalAxioms(p *Path) {
 }
 
 // VerifyFunc generates the obligations of one function in one mode.
-func (e *Engine) VerifyFunc(fn *ssa.Function, mode string) *FuncReport {
+func (e *Engine) VerifyFunc(fn *ssa.Function, mode string) (rep *FuncReport) {
 	fc := e.contractOf(fn)
 	c := e.newCtx(fn, fc, mode)
-	rep := &FuncReport{Func: c.label, Mode: mode, HasContract: fc != nil}
+	rep = &FuncReport{Func: c.label, Mode: mode, HasContract: fc != nil}
+	defer func() {
+		// a contract clause that cannot be evaluated against the current source (renamed variable, removed
+		// field, ...) must surface as an undischarged obligation, never as a crash of the verifier
+		if r := recover(); r != nil {
+			ce, ok := r.(contractError)
+			if !ok {
+				panic(r)
+			}
+			e.contractErrors = append(e.contractErrors, c.label+": "+ce.msg)
+			rep.Aborted = "contract no longer binds: " + ce.msg
+			rep.Obs = c.obs
+		}
+	}()
 	for _, b := range fn.Blocks {
 		rep.Instrs += len(b.Instrs)
 	}
@@ -179,6 +193,17 @@ func (e *Engine) VerifyFunc(fn *ssa.Function, mode string) *FuncReport {
 			ec := &EvalCtx{c: c, p: q, env: renv, heap: &q.heap, old: &entryHeap, oldNow: entryNow, pkg: pkg, ghostOld: ghostEntry}
 			for i, cl := range fc.Ensures {
 				if cl.Seq && mode != "seq" {
+					continue
+				}
+				if cl.Acq {
+					if mode != "mon" || q.lastAcq == nil {
+						continue
+					}
+					// relative to the state at the latest write-lock acquisition: what holds under every interleaving
+					ac := *ec
+					ac.old = q.lastAcq
+					t, _ := c.evalClause(&ac, cl, "ensures of "+c.label)
+					c.oblige(q, "post_acq", clauseLabel(cl, i, "ensures"), t, cl.Src, props)
 					continue
 				}
 				t, _ := c.evalClause(ec, cl, "ensures of "+c.label)
@@ -527,6 +552,9 @@ func Discharge(obs []*Obligation, opt runOpts) []*ObResult {
 		}
 		r.Paths++
 		r.TimeS += j.res.Time
+		if j.res.Time > r.MaxS {
+			r.MaxS = j.res.Time
+		}
 		if len(j.q) > r.SmtBytes {
 			r.SmtBytes = len(j.q)
 		}
